@@ -145,6 +145,9 @@ inline bool is_b64u_text(const std::string &s) { for (unsigned char c : s) if (s
 // ------------------------------------------------------------------ fake clock
 inline time_t &now_ref() { static time_t t = 1700000000; return t; }
 inline void set_now(time_t t) { now_ref() = t; }
+// a clock that moves: every reading of time() is followed by a step of this many seconds (0: the clock stands still, the default)
+inline long &tick_ref() { static long t = 0; return t; }
+inline void set_ticking(long step) { tick_ref() = step; }
 
 // ------------------------------------------------------------------ JSON helpers (jansson as parser/printer/equality)
 struct J {
@@ -325,4 +328,5 @@ inline bool set_provider(int p, bool pollute = true) { bool ok = jwt_set_crypto_
 extern "C" const char *__asan_default_options() { return "detect_leaks=0:allocator_may_return_null=1:exitcode=99"; }
 #endif
 // The statically linked library and the harness get their time() from here (-Wl,--wrap=time).
-extern "C" time_t __wrap_time(time_t *t) { time_t n = v::now_ref(); if (t) *t = n; return n; }
+extern "C" time_t __wrap_time(time_t *t) { time_t n = v::now_ref(); if (v::tick_ref()) v::now_ref() += v::tick_ref();   /* (no write while the clock stands still: threads read it concurrently in C18) */
+  if (t) *t = n; return n; }
